@@ -288,7 +288,7 @@ def opOracle (op : Op) (out : Outc) (pre post : List Obs) (evs : List Evt) : Opt
       match findObs pre src, findObs post res with
       | some a, some b =>
         if a1alloc then some ("C07", "a byte buffer was allocated by a sharing operation")
-        else if (b.len > 0 || checkEmpty) && a.blk.isSome then
+        else if (b.len > 0 || (checkEmpty && a.len > 0)) && a.blk.isSome then
           (match addrOf a, addrOf b with
            | some (s, o), some (s', o') => if s == s' && o' == o + delta then none else some ("C07", s!"result handle {res} does not start at the source address + {delta}")
            | _, _ => some ("C07", s!"result handle {res} has no address"))
@@ -335,6 +335,21 @@ def opOracle (op : Op) (out : Outc) (pre post : List Obs) (evs : List Evt) : Opt
       | _, _ => none
     | _, _ => none
 
+/-- C13 "never a silent wrong result": the documented panics, decided from the implementation's own
+observation of the handle before the call (`none`: the documentation leaves it open / not covered). -/
+def mustPanic (op : Op) (pre : List Obs) : Option Bool :=
+  let g (i : Nat) := findObs pre i
+  match op with
+  | .slice i lo hi => (g i).map fun o => decide (lo > hi ∨ hi > o.len)
+  | .splitOff i k => (g i).map fun o => if o.kind == .bytes then decide (k > o.len) else decide (k > o.cap.getD 0)
+  | .splitTo i k => (g i).map fun o => decide (k > o.len)
+  | .advance i n => (g i).map fun o => decide (n > o.len)
+  | .setByte i k _ => (g i).map fun o => decide (k ≥ o.len)
+  | .truncate _ _ | .clear _ | .clone _ | .isUnique _ | .freeze _ | .intoVec _ | .intoMut _ | .tryIntoMut _ | .split _ | .drop _ => some false
+  | .reserve i n => (g i).bind fun o => if o.len + n ≥ W then some true else if n ≤ (o.cap.getD 0) - o.len then some false else none
+  | .tryReclaim _ _ => some false
+  | _ => none
+
 /-- frame: handles not involved in the op keep their contents (C01 'never changes what any other handle reads') -/
 def frameOracle (op : Op) (pre post : List Obs) : Option (String × String) :=
   let involved : List Nat := match op with
@@ -374,6 +389,12 @@ def judgeBlock (s : JS) : IO JS := do
   if specObs != implObs then
     emit s true s!"oracle-fail C01 op={opw.headD "?"} what=handles_differ_from_the_independent-Vec_reference_model"
   else
+  match (match mustPanic op s.prev with
+         | some true => if out != Outc.panic then some ("C13", "out-of-contract arguments did not panic (silent result)") else none
+         | some false => if out == Outc.panic then some ("C13", "in-contract call panicked") else none
+         | none => none) with
+  | some (p, msg) => emit s true s!"oracle-fail {p} op={opw.headD "?"} what={msg.replace " " "_"}"
+  | none =>
   match frameOracle op s.prev b.obs with
   | some (p, msg) => emit s true s!"oracle-fail {p} op={opw.headD "?"} what={msg.replace " " "_"}"
   | none =>
@@ -402,10 +423,13 @@ def judgeBlock (s : JS) : IO JS := do
     else
       let mo := modelObs m'
       -- an address is only compared while it denotes memory: not for empty views / zero capacity
-      let mcanon := canon (mo.map fun o => if (o.cap.getD o.len) == 0 then none else o.reg)
-      let icanon := canon (b.obs.map fun o => if (o.cap.getD o.len) == 0 then none else o.blk.map (·.1))
+      let mcanon := canon (mo.map fun (o : MObs) => if (o.cap.getD o.len) == 0 then none else o.reg)
+      let icanon := canon (b.obs.map fun (o : Obs) => if (o.cap.getD o.len) == 0 then none else o.blk.map (·.1))
       let mrows := (mo.zip mcanon).map fun (o, c) => (o.id, o.kind, c, if c.isSome then o.off else 0, o.len, o.cap, o.uniq, o.contents)
       let irows := (b.obs.zip icanon).map fun (o, c) => (o.id, o.kind, c, if c.isSome then (o.blk.map (·.2.1)).getD 0 else 0, o.len, o.cap, o.uniq, o.contents)
+      match uniqOracle m' b.obs with
+      | some (p, msg) => emit s true s!"oracle-fail {p} op={opw.headD "?"} what={msg.replace " " "_"}"
+      | none =>
       if mrows != irows then
         let d := (mrows.zip irows).find? fun (a, b) => a != b
         let what := match d with
@@ -413,10 +437,6 @@ def judgeBlock (s : JS) : IO JS := do
           | none => s!"handle-count_model={mrows.length}_impl={irows.length}"
         emit s false s!"model-diff SEQ op={opw.headD "?"} state {what}"
       else
-        -- C08 with the model's knowledge of which handles are static / owner-backed
-        match uniqOracle m' b.obs with
-        | some (p, msg) => emit s true s!"oracle-fail {p} op={opw.headD "?"} what={msg.replace " " "_"}"
-        | none =>
         -- ledger delta: byte buffers by size, control blocks by count
         let newEvs := m'.events.take (m'.events.length - m.events.length)
         let mA := (newEvs.filterMap fun e => match e with | .alloc _ z => some z | _ => none).mergeSort
@@ -462,19 +482,19 @@ def step (s : JS) (line : String) : IO JS := do
     | _, _, _ => return s
   | ["end"] => judgeBlock s
   | ["balance", delta, viol] =>
+    -- allocator-level end-of-script facts are judged whether or not the model is still in sync
+    let inSync := s.model.isSome
+    let s ← if delta != "align1_live_delta=0" then emit s true s!"oracle-fail C03 op=end what=byte_buffers_still_allocated_after_every_handle_was_dropped_({delta})" else pure s
+    let s ← if viol != "violations=0" then emit s true s!"oracle-fail C02 op=end what=allocator_violations_({viol})" else pure s
+    let s ← match s.prevOwners.find? fun (_, a, d) => a != 1 || d != 1 with
+      | some (o, a, d) => if inSync then emit s true s!"oracle-fail C03 op=end what=owner_{o}_asref={a}_dropped={d}_at_the_end" else pure s
+      | none => pure s
     match s.model with
-    | none => return s
+    | none => return { s with digest := 0xcbf29ce484222325 }
     | some m =>
-      let s ← if delta != "align1_live_delta=0" then emit s true s!"oracle-fail C03 op=end what=byte_buffers_still_allocated_after_every_handle_was_dropped_({delta})" else pure s
-      let s ← if viol != "violations=0" then emit s true s!"oracle-fail C02 op=end what=allocator_violations_({viol})" else pure s
-      -- every owner: as_ref exactly once, dropped exactly once, by the end
-      let s ← match s.prevOwners.find? fun (_, a, d) => a != 1 || d != 1 with
-        | some (o, a, d) => emit s true s!"oracle-fail C03 op=end what=owner_{o}_asref={a}_dropped={d}_at_the_end"
-        | none => pure s
-      -- model side: nothing left
       let liveRegs := (m.regions.filter fun r => r.live && (match r.kind with | .heap _ => true | _ => false)).length
       let liveCtrls := (m.ctrls.filter (·.live)).length
-      let s ← if s.model.isSome && (liveRegs != 0 || liveCtrls != 0) then emit s false s!"model-diff SEQ op=end model-leaks regions={liveRegs} ctrls={liveCtrls}" else pure s
+      let s ← if liveRegs != 0 || liveCtrls != 0 then emit s false s!"model-diff SEQ op=end model-leaks regions={liveRegs} ctrls={liveCtrls}" else pure s
       IO.println s!"digest {s.nscripts} {hex16 s.digest}"
       return { s with model := none, digest := 0xcbf29ce484222325 }
   | "hseq" :: _ => return s
